@@ -346,6 +346,42 @@ def _inline_exception_tuples(tree):
     for n in ast.walk(tree):
         if isinstance(n, ast.ExceptHandler) and isinstance(n.type, ast.Name) and n.type.id in consts and stores.get(n.type.id, 0) == 1:
             n.type = ast.copy_location(_copy.deepcopy(consts[n.type.id]), n.type)
+    # a module constant bound once to a pure numeric expression (`_LOG_2 = np.log(2)`) reads as that expression
+    def _pure_num(e_):
+        if isinstance(e_, ast.Constant):
+            return isinstance(e_.value, (int, float)) and not isinstance(e_.value, bool)
+        if isinstance(e_, ast.UnaryOp) and isinstance(e_.op, (ast.USub, ast.UAdd)):
+            return _pure_num(e_.operand)
+        if isinstance(e_, ast.BinOp) and isinstance(e_.op, (ast.Add, ast.Sub, ast.Mult, ast.Div, ast.Pow)):
+            return _pure_num(e_.left) and _pure_num(e_.right)
+        if isinstance(e_, ast.Call) and isinstance(e_.func, ast.Attribute) and isinstance(e_.func.value, ast.Name) and e_.func.value.id in ("np", "numpy", "math") and e_.func.attr in ("log", "log2", "log10", "sqrt", "exp", "log1p") and len(e_.args) == 1 and not e_.keywords:
+            return _pure_num(e_.args[0])
+        return False
+
+    nums = {}
+    for s in tree.body:
+        if isinstance(s, ast.Assign) and len(s.targets) == 1 and isinstance(s.targets[0], ast.Name) and (s.targets[0].id.startswith("_") or s.targets[0].id.isupper()) and isinstance(s.value, (ast.Call, ast.BinOp)) and _pure_num(s.value):
+            nums[s.targets[0].id] = s.value
+    if nums:
+        nst = {}
+        for n in ast.walk(tree):
+            if isinstance(n, ast.Name) and isinstance(n.ctx, (ast.Store, ast.Del)) and n.id in nums:
+                nst[n.id] = nst.get(n.id, 0) + 1
+            elif isinstance(n, (ast.Global, ast.Nonlocal)):
+                for g in n.names:
+                    nst[g] = nst.get(g, 0) + 2
+            elif isinstance(n, ast.arg) and n.arg in nums:
+                nst[n.arg] = nst.get(n.arg, 0) + 2
+
+        class _NumSub(ast.NodeTransformer):
+            def visit_Name(self, n_):
+                if isinstance(n_.ctx, ast.Load) and n_.id in nums and nst.get(n_.id, 0) == 1:
+                    return ast.copy_location(_copy.deepcopy(nums[n_.id]), n_)
+                return n_
+
+        for s in tree.body:
+            if isinstance(s, (ast.FunctionDef, ast.AsyncFunctionDef, ast.ClassDef)):
+                _NumSub().visit(s)
     # `for k in NAMES:` where NAMES is a module constant bound once to a tuple of literals reads as the literal tuple
     lits = {}
     for s in tree.body:
@@ -585,7 +621,7 @@ def _normalise_syntax(tree):
                 return [aug]
         if isinstance(st, ast.Assign) and len(st.targets) == 1 and isinstance(st.targets[0], ast.Tuple) and isinstance(st.value, ast.Tuple) and len(st.targets[0].elts) == len(st.value.elts) and len(st.value.elts) >= 2:
             ts, vs = st.targets[0].elts, st.value.elts
-            if all(isinstance(t, (ast.Name, ast.Attribute)) and call_free(t) for t in ts) and not any(isinstance(v, ast.Starred) for v in vs) and all(call_free(v) for v in vs):
+            if all(isinstance(t, (ast.Name, ast.Attribute)) and call_free(t) for t in ts) and not any(isinstance(v, ast.Starred) for v in vs) and (all(call_free(v) for v in vs) or all(isinstance(t, ast.Name) for t in ts)):  # calls cannot observe a local
                 roots = [root_name(t) for t in ts]
                 indep = all(r is not None for r in roots) and len(set(ast.dump(_as_load(t)) for t in ts)) == len(ts)
                 for k in range(1, len(vs)):
@@ -1230,7 +1266,11 @@ def _inline_module_helpers(trees):
         for tree in trees:
             for h in [f for f in tree.body if isinstance(f, ast.FunctionDef)]:
                 nm = h.name
-                if nm in anchors or not nm.startswith("_") or nm.startswith("__") or h.decorator_list:
+                if nm in anchors or nm.startswith("__") or h.decorator_list:
+                    continue
+                # a public name is inlined only if it is new to the rules *and* undocumented in the package's API listing
+                # (no `__all__` entry): helpers introduced by a clean-up are not always underscored
+                if not nm.startswith("_") and (os.environ.get("SA_INLINE_PUBLIC", "1") != "1" or any(isinstance(s_, ast.Assign) and any(isinstance(t_, ast.Name) and t_.id == "__all__" for t_ in s_.targets) and any(isinstance(c_, ast.Constant) and c_.value == nm for c_ in ast.walk(s_.value)) for t2 in trees for s_ in t2.body)):
                     continue
                 a = h.args
                 if a.vararg or a.kwarg or a.posonlyargs:
@@ -1264,8 +1304,20 @@ def _inline_module_helpers(trees):
                             out |= {x.id for tg in s_.targets for x in ast.walk(tg) if isinstance(x, ast.Name)}
                     return out
 
-                if any(not (free - set(dir(_bi))) <= top_names(t2) for t2 in importers):
+                # names the body needs that an importing module does not bind: copy the (absolute) import over
+                home_imports = {}
+                for s_ in tree.body:
+                    if isinstance(s_, ast.Import) or (isinstance(s_, ast.ImportFrom) and not s_.level):
+                        for al in s_.names:
+                            home_imports[(al.asname or al.name).split(".")[0]] = (s_, al)
+                need = {id(t2): (free - set(dir(_bi))) - top_names(t2) for t2 in importers}
+                if any(not set(v_) <= set(home_imports) for v_ in need.values()):
                     continue
+                for t2 in importers:
+                    for v_ in sorted(need[id(t2)]):
+                        s_, al = home_imports[v_]
+                        imp = ast.Import(names=[al]) if isinstance(s_, ast.Import) else ast.ImportFrom(module=s_.module, names=[al], level=0)
+                        t2.body.insert(0, ast.fix_missing_locations(ast.copy_location(imp, t2.body[0])))
                 sites = []
                 for t2 in [tree] + importers:
                     for g in [f for f in ast.walk(t2) if isinstance(f, ast.FunctionDef) and f is not h]:
